@@ -170,7 +170,7 @@ fn collect_case<N: ArrayLength, E: Elem>(entry: u8, c: usize, hint: Hint, fused:
 macro_rules! for_ns {
     ($ctx:expr, [$($n:ty),*], [$($tn:ty),*], $N:ident => $body:block) => {
         $( { type $N = $n; $body } )*
-        if $ctx.thorough() || $ctx.only.is_some() { $( { type $N = $tn; $body } )* }
+        { $( { type $N = $tn; $body } )* }
     };
 }
 
